@@ -48,7 +48,7 @@ CHECKS = {
          "DESIGN.md §2 C08"),
  "C09": ("exploration", "chain+world",
          "recover()/error oracle around FinalizeBlock of the real app under omnibus histories with hostile accepted values + Begin/EndBlock probing of every Paloma module on forked states at rare height classes",
-         "Seeded omnibus histories of the real application in which every sender-controlled value (fee multiplicators, gas estimates, amounts, payload sizes, proofs of every malformed shape, nonces, versions, addresses, governance-set numbers and strings) comes from hostile generators and remains only if the chain accepted the transaction. Every FinalizeBlock is wrapped in recover()+error check; every 40 blocks each Paloma module's BeginBlock/EndBlock is additionally run on throw-away forks at the next heights = 0 mod 10/50/300/303 and at 10 000 / 15 150 / 30 300 / 303 000. Scripted long-idle histories (early deliveries, a flood of > 1000 job executions nobody relays, one late delivery) take the relay-metrics purge over validators whose whole history is outside the scoring window. Held = no abort on those executions.",
+         "Seeded omnibus histories of the real application in which every sender-controlled value (fee multiplicators, gas estimates, amounts, payload sizes, proofs of every malformed shape, nonces, versions, addresses, governance-set numbers and strings) comes from hostile generators and remains only if the chain accepted the transaction. Every FinalizeBlock is wrapped in recover()+error check; every 40 blocks each Paloma module's BeginBlock/EndBlock is additionally run on throw-away forks at the next heights = 0 mod 10/50/300/303 and at 10 000 / 15 150 / 30 300 / 303 000; the version gate (completed upgrade plan x application version on one major.minor line) is probed on forks and may stop older software only. Scripted long-idle histories (early deliveries, a flood of > 1000 job executions nobody relays, one late delivery) take the relay-metrics purge over validators whose whole history is outside the scoring window; scripted retry histories (minority of MEV-capable validators, unanimous failure reports) make the end-blocker re-enqueue logic calls. Held = no abort on those executions.",
          "Only accepted-transaction states; governance-set policy numbers from a plausible range; version-gate halt not exercised; stakes bounded by realistic supply.",
          "DESIGN.md §2 C09"),
  "C10": ("exploration", "chain+world",
